@@ -503,7 +503,11 @@ func (c *compiler) evalIdentifier(node *ast.Identifier) (interface{}, error) {
 			return nil, fmt.Errorf("'%s' does not have a field or method named '%s' (%s)", node.Callee.String(), node.Value, node)
 		}
 
-		f := rv.FieldByName(node.Value)
+		f, err := fieldByName(rv, node.Value)
+		if err != nil {
+			return nil, fmt.Errorf("'%s': %w (%s)", node.Callee.String(), err, node)
+		}
+
 		if f.Kind() == reflect.Ptr {
 			if f.IsNil() {
 				return nil, nil
@@ -539,6 +543,29 @@ func (c *compiler) evalIdentifier(node *ast.Identifier) (interface{}, error) {
 	return nil, &ErrUnknownIdentifier{
 		ID: node.Value,
 	}
+}
+
+// fieldByName is rv.FieldByName(name), except that a field promoted through an
+// embedded pointer that is nil is an error instead of a panic.
+func fieldByName(rv reflect.Value, name string) (reflect.Value, error) {
+	sf, ok := rv.Type().FieldByName(name)
+	if !ok {
+		return reflect.Value{}, nil
+	}
+
+	for i, x := range sf.Index {
+		if i > 0 && rv.Kind() == reflect.Ptr {
+			if rv.IsNil() {
+				return reflect.Value{}, fmt.Errorf("field '%s' is reached through a nil embedded pointer", name)
+			}
+
+			rv = rv.Elem()
+		}
+
+		rv = rv.Field(x)
+	}
+
+	return rv, nil
 }
 
 func (c *compiler) evalInfixExpression(node *ast.InfixExpression) (interface{}, error) {
